@@ -396,6 +396,40 @@ def run(ctx):
                              "estimate=" + ("nan" if r["est"] and r["est"][0] == "nan" else "index")])
         judge(ctx, meta, job["force"], res, truth=truth if meta["kind"] == "model-grid" else None)
 
+    # 4b. other element types: the same values as int64 / int32 / uint16 (ADC counts) / float32 arrays
+    from nanite import poc as _poc
+    cand = [i for i, j in enumerate(jobs) if metas[i][0]["kind"] in ("model-grid", "random-curve") and
+            len(j["force"]) <= 1000][: (6 if ctx.tier == "quick" else 60)]
+    for i in cand:
+        F = quantise(jobs[i]["force"], bits=14)
+        F = F - F.min()
+        for m in methods:
+            ref = one(F.astype(np.float64), m)[0]
+            for dt in (np.int64, np.int32, np.uint16, np.float32):
+                arr = F.astype(dt)
+                a0 = arr.copy()
+                with warnings.catch_warnings():
+                    warnings.simplefilter("ignore")
+                    try:
+                        got = int(_poc.compute_poc(arr, m))
+                    except BaseException as e:  # noqa
+                        got = "exc:" + type(e).__name__ + ":" + str(e)[:80]
+                ctx.case({"dtype": np.dtype(dt).name, "method": m, "kind": metas[i][0]["kind"]},
+                         nontrivial=f"dtype:{np.dtype(dt).name}:{m}:{i}", bucket=["dtype=" + np.dtype(dt).name])
+                rep = {"input": {**metas[i][0], "method": m, "dtype": np.dtype(dt).name,
+                                 "force": [int(v) for v in F]}, "expected": ref, "observed": got}
+                if isinstance(got, str):
+                    ctx.violation(f"raises:{m}:dtype", f"compute_poc({m}) on a {np.dtype(dt).name} array raises {got} "
+                                  f"(the same values as float64 give {ref})", rep)
+                elif dt is np.float32:
+                    # (single precision changes the arithmetic itself: only "an index, no exception" is asserted)
+                    if not (0 <= got < len(F)):
+                        ctx.violation(f"index-out-of-range:{m}:float32", f"{m} returned {got} for {len(F)} samples", rep)
+                elif isinstance(ref, int) and got != ref:
+                    ctx.violation(f"dtype-dependent:{m}", f"compute_poc({m}) gives {got} on a {np.dtype(dt).name} array "
+                                  f"and {ref} on the same values as float64", rep)
+                if not np.array_equal(arr, a0):
+                    ctx.violation(f"input-modified:{m}:dtype", f"{m} modified the {np.dtype(dt).name} array", rep)
     # 5. correspondence with the Lean model on integer-valued arrays
     s, c = math.sin(-math.pi / 4), math.cos(-math.pi / 4)
     consts = {"s": q(s), "c": q(c), "c01": q(0.01)}
